@@ -13,6 +13,8 @@ SPEC = {
         'AITB.Hidden.pool_unobservable',
         'AITB.Hidden.stepG_graph_indep',
         'AITB.Hidden.takeNode_indep',
+        'AITB.Hidden.copyNodes_spec',
+        'AITB.Hidden.copy_is_replica',
         'AITB.Hidden.call_output_independent_of_history',
         'AITB.Hidden.viObject_reusable',
         'AITB.Hidden.vi_reuse_eq_fresh',
